@@ -82,6 +82,10 @@ class SnowfakeryApplication:
 
         last_used_id = id_manager[self.stopping_tablename]
 
+        if self.rep_count == 0:
+            # first iteration of this run: a continued run starts from the restored id
+            self.starting_id = id_manager.start_ids.get(self.stopping_tablename, 1) - 1
+
         if last_used_id == self.starting_id:
             raise RuntimeError(
                 f"{self.stopping_tablename} max ID was {self.starting_id} "
